@@ -2,8 +2,14 @@ package c04
 
 import (
 	"errors"
+	"fmt"
+	"math"
 	"reflect"
+	"strconv"
+	"strings"
 	"time"
+
+	ucfg "github.com/elastic/go-ucfg"
 )
 
 // Hand-written leaf types: reflect.StructOf types cannot carry methods, so
@@ -59,17 +65,109 @@ func (d *DefBad) Validate() error {
 	return nil
 }
 
-// WithDefaults: InitDefaults yields a valid N.
+// Types that take their value through one of go-ucfg's Unpacker interfaces
+// (pointer receiver). Every Unpack stores exactly the value it is given, so
+// the model of Unpack treats them like plain numbers / strings.
+
+// UNum: ucfg.Unpacker (the value arrives as interface{}), no Validate.
+type UNum int
+
+func (u *UNum) Unpack(v interface{}) error {
+	switch x := v.(type) {
+	case int:
+		*u = UNum(x)
+	case int64:
+		*u = UNum(x)
+	case uint64:
+		if x > math.MaxInt64 {
+			return errors.New("c04lib: unum out of range")
+		}
+		*u = UNum(x)
+	case float64:
+		if x != math.Trunc(x) || math.Abs(x) > 1<<53 {
+			return errors.New("c04lib: unum needs a whole number")
+		}
+		*u = UNum(x)
+	case string:
+		n, err := strconv.ParseInt(strings.TrimSpace(x), 10, 64)
+		if err != nil {
+			return err
+		}
+		*u = UNum(n)
+	default:
+		return fmt.Errorf("c04lib: unum from %T", v)
+	}
+	return nil
+}
+
+// ULevel: ucfg.IntUnpacker and a pointer-receiver Validate; the zero value is valid.
+type ULevel int
+
+func (l *ULevel) Unpack(v int64) error { *l = ULevel(v); return nil }
+
+func (l *ULevel) Validate() error {
+	if *l < 0 || *l > 9 {
+		return errors.New("c04lib: ulevel outside 0..9")
+	}
+	return nil
+}
+
+// UPort: ucfg.UintUnpacker and a value-receiver Validate; the zero value is INVALID.
+type UPort uint
+
+func (p *UPort) Unpack(v uint64) error { *p = UPort(v); return nil }
+
+func (p UPort) Validate() error {
+	if p < 1 || p > 65535 {
+		return errors.New("c04lib: uport outside 1..65535")
+	}
+	return nil
+}
+
+// UStr: ucfg.StringUnpacker, no Validate.
+type UStr string
+
+func (s *UStr) Unpack(v string) error { *s = UStr(v); return nil }
+
+// URange: ucfg.ConfigUnpacker (merges the settings into the fields it holds)
+// and a value-receiver Validate with a cross-field condition.
+type URange struct {
+	Lo int `config:"lo"`
+	Hi int `config:"hi"`
+}
+
+func (r *URange) Unpack(c *ucfg.Config) error {
+	tmp := struct {
+		Lo int `config:"lo"`
+		Hi int `config:"hi"`
+	}{r.Lo, r.Hi}
+	if err := c.Unpack(&tmp, ucfg.PathSep("."), ucfg.VarExp); err != nil {
+		return err
+	}
+	r.Lo, r.Hi = tmp.Lo, tmp.Hi
+	return nil
+}
+
+func (r URange) Validate() error {
+	if r.Lo > r.Hi {
+		return errors.New("c04lib: urange lo > hi")
+	}
+	return nil
+}
+
+// WithDefaults: InitDefaults yields an N that is valid under the `validate`
+// tag and invalid under the `check` tag (see ValidatorTag).
 type WithDefaults struct {
-	N int    `config:"n" validate:"min=3"`
+	N int    `config:"n" validate:"min=3" check:"max=5"`
 	S string `config:"s"`
 }
 
 func (w *WithDefaults) InitDefaults() { w.N = 7; w.S = "dflt" }
 
-// WithBadDefaults: InitDefaults yields an N that violates min=3.
+// WithBadDefaults: InitDefaults yields an N that violates min=3 of the
+// `validate` tag and satisfies the `check` tag.
 type WithBadDefaults struct {
-	N int    `config:"n" validate:"min=3"`
+	N int    `config:"n" validate:"min=3" check:"max=5, nonzero"`
 	S string `config:"s"`
 }
 
@@ -134,12 +232,23 @@ var (
 	tLevel    = reflect.TypeOf(Level(0))
 	tDefLevel = reflect.TypeOf(DefLevel(0))
 	tDefBad   = reflect.TypeOf(DefBad(0))
+	tInt8     = reflect.TypeOf(int8(0))
+	tInt32    = reflect.TypeOf(int32(0))
+	tUint8    = reflect.TypeOf(uint8(0))
+	tUint32   = reflect.TypeOf(uint32(0))
+	tUint64   = reflect.TypeOf(uint64(0))
+	tFloat32  = reflect.TypeOf(float32(0))
+	tUNum     = reflect.TypeOf(UNum(0))
+	tULevel   = reflect.TypeOf(ULevel(0))
+	tUPort    = reflect.TypeOf(UPort(0))
+	tUStr     = reflect.TypeOf(UStr(""))
 
 	tWithDefaults    = reflect.TypeOf(WithDefaults{})
 	tWithBadDefaults = reflect.TypeOf(WithBadDefaults{})
 	tRange           = reflect.TypeOf(Range{})
 	tPair            = reflect.TypeOf(Pair{})
 	tHidden          = reflect.TypeOf(Hidden{})
+	tURange          = reflect.TypeOf(URange{})
 )
 
 type validator interface{ Validate() error }
@@ -149,6 +258,19 @@ var (
 	tValidator   = reflect.TypeOf((*validator)(nil)).Elem()
 	tInitializer = reflect.TypeOf((*initializer)(nil)).Elem()
 )
+
+// hasUnpack: the type (or the pointer to it) has an Unpack method, i.e. go-ucfg
+// hands the setting to the type instead of converting it itself.
+func hasUnpack(t reflect.Type) bool {
+	for t.Kind() == reflect.Ptr {
+		t = t.Elem()
+	}
+	if t.PkgPath() == "" || t.Name() == "" {
+		return false
+	}
+	_, ok := reflect.PtrTo(t).MethodByName("Unpack")
+	return ok
+}
 
 func hasInit(t reflect.Type) bool {
 	return t.Implements(tInitializer) || reflect.PtrTo(t).Implements(tInitializer)
